@@ -184,9 +184,13 @@ impl ServerState {
         let rx = self.cb_rx.clone();
         let last_compilation_state = self.last_compilation_state.clone();
         std::thread::spawn(move || {
+            #[cfg(fuellabs_sway_verif)]
+            crate::verif::point("W:recv");
             while let Ok(msg) = rx.recv() {
                 match msg {
                     TaskMessage::CompilationContext(ctx) => {
+                        #[cfg(fuellabs_sway_verif)]
+                        crate::verif::point_version("W:got_request", ctx.version);
                         let uri = &ctx.uri;
                         let path = uri.to_file_path().unwrap();
                         let mut engines_clone = ctx.engines.read().clone();
@@ -213,6 +217,8 @@ impl ServerState {
                         }
 
                         // Set the is_compiling flag to true so that the wait_for_parsing function knows that we are compiling
+                        #[cfg(fuellabs_sway_verif)]
+                        crate::verif::point("W:set_compiling");
                         is_compiling.store(true, Ordering::SeqCst);
                         match session::parse_project(
                             uri,
@@ -240,10 +246,14 @@ impl ServerState {
                                                 &mut engines_clone,
                                             );
                                         }
+                                        #[cfg(fuellabs_sway_verif)]
+                                        crate::verif::point_version("W:finish_success", ctx.version);
                                         *last_compilation_state.write() =
                                             LastCompilationState::Success;
                                     }
                                     None => {
+                                        #[cfg(fuellabs_sway_verif)]
+                                        crate::verif::point_version("W:finish_no_program", ctx.version);
                                         *last_compilation_state.write() =
                                             LastCompilationState::Failed;
                                     }
@@ -251,19 +261,31 @@ impl ServerState {
                             }
                             Err(err) => {
                                 tracing::error!("{}", err.to_string());
+                                #[cfg(fuellabs_sway_verif)]
+                                crate::verif::point_version("W:finish_failed", ctx.version);
                                 *last_compilation_state.write() = LastCompilationState::Failed;
                             }
                         }
 
                         // Reset the flags to false
+                        #[cfg(fuellabs_sway_verif)]
+                        crate::verif::point("W:clear_compiling");
                         is_compiling.store(false, Ordering::SeqCst);
+                        #[cfg(fuellabs_sway_verif)]
+                        crate::verif::point("W:clear_retrigger");
                         retrigger_compilation.store(false, Ordering::SeqCst);
 
                         // Make sure there isn't any pending compilation work
+                        #[cfg(fuellabs_sway_verif)]
+                        crate::verif::point("W:check_empty");
                         if rx.is_empty() {
                             // finished compilation, notify waiters
+                            #[cfg(fuellabs_sway_verif)]
+                            crate::verif::point("W:notify");
                             finished_compilation.notify_waiters();
                         }
+                        #[cfg(fuellabs_sway_verif)]
+                        crate::verif::point("W:recv");
                     }
                     TaskMessage::Terminate => {
                         // If we receive a terminate message, we need to exit the thread
@@ -306,18 +328,42 @@ impl ServerState {
         loop {
             // Check both the is_compiling flag and the last_compilation_state.
             // Wait if is_compiling is true or if the last_compilation_state is Uninitialized.
+            #[cfg(fuellabs_sway_verif)]
+            crate::verif::point("T:wp_check_flags");
             if !self.is_compiling.load(Ordering::SeqCst)
                 && *self.last_compilation_state.read() != LastCompilationState::Uninitialized
             {
                 // compilation is finished, lets check if there are pending compilation requests.
+                #[cfg(fuellabs_sway_verif)]
+                crate::verif::point("T:wp_check_empty");
                 if self.cb_rx.is_empty() {
                     // no pending compilation work, safe to break.
                     break;
                 }
             }
             // We are still compiling, lets wait to be notified.
+            #[cfg(fuellabs_sway_verif)]
+            crate::verif::point("T:wp_wait");
             self.finished_compilation.notified().await;
+            #[cfg(fuellabs_sway_verif)]
+            crate::verif::point("T:wp_woken");
         }
+    }
+
+    /// Verification seam: number of compilation requests queued for the worker.
+    #[cfg(fuellabs_sway_verif)]
+    pub fn verif_pending_requests(&self) -> usize {
+        self.cb_rx.len()
+    }
+
+    /// Verification seam: `(is_compiling, retrigger_compilation, last compilation state)`.
+    #[cfg(fuellabs_sway_verif)]
+    pub fn verif_flags(&self) -> (bool, bool, String) {
+        (
+            self.is_compiling.load(Ordering::SeqCst),
+            self.retrigger_compilation.load(Ordering::SeqCst),
+            format!("{:?}", *self.last_compilation_state.read()),
+        )
     }
 
     pub fn shutdown_server(&self) -> jsonrpc::Result<()> {
